@@ -2,6 +2,7 @@ import GixModel.Lemmas.C28
 import GixModel.Lemmas.C28Body
 import GixModel.Lemmas.C28Value
 import GixModel.Lemmas.C28Multi
+import GixModel.Lemmas.C28Reparse
 /-
 C28 — Config edits change only what was edited.  PROPERTY THEOREMS ONLY.
 
@@ -31,6 +32,8 @@ table; it is tied to the real `gix_config::File` by edit histories in the harnes
   `multi_delete_all_view` (ALL well-formed bodies: exactly the items with the key are rewritten /
   dropped, comments and all other entries untouched), `multi_all_call_frame`, `multi_at_call_frame`
   (ALL files: only sections filed under the looked-up name change, front matter and table never).
+* `C28_full_uniform_newlines` (round 3): `C28_full` on the class where the writer adds nothing or
+  the final newline and the edited events re-parse to themselves (explicit hypotheses).
 Not proved (see `C28_full`): that the serialized result parses back to the edited view (the
 print-then-parse direction of the grammar); evaluated by the oracle on every step of every
 generated history (reparse by gitoxide and by git).
@@ -454,6 +457,34 @@ example : ∃ f f', load [91, 97, 93, 10, 107, 61, 49, 10, 91, 98, 93, 10, 107, 
     f'.write = [91, 97, 93, 10, 107, 61, 120, 10, 91, 98, 93, 10, 107, 61, 53, 10, 91, 65, 93, 10, 107, 61, 120, 10,
       107, 61, 120, 10] := by
   refine ⟨_, _, rfl, rfl, by decide +kernel⟩
+
+/-- `C28_full` on the class where print-then-parse is proved (round 3; same predicates as C26's
+`file_reparse_uniform_newlines`). After ANY successful call — and in fact for any file value,
+loaded or edited (`reparse_edited`) — such that
+* the edited file's own events re-parse to themselves (`hs`: the print-then-parse direction for the
+  events as they stand, NOT proved in general — it is the remaining open part of `C28_full`),
+* the text has no BOM head byte and does not end in a lone CR, and the events END IN A VALUE
+  (no comment, whitespace or newline run at the very end of the file),
+* `File::write_to` inserts nothing, or exactly the missing final newline (`\n` / `\r\n` as the file uses),
+the written text loads and has the same view (header and entries of every section, in order) and
+the same comments in every section as the edited file. -/
+theorem C28_full_uniform_newlines (f f' : FileS) (op : AnyOp) (_h : applyAny f op = .ok f')
+    (hs : fileFromBytes (render f'.toFile.events) = some f'.toFile)
+    (hbom : noBomHead (render f'.toFile.events) = true) (hcr : (render f'.toFile.events).getLast? ≠ some 13)
+    (hv : ∃ e, f'.toFile.events.getLast? = some e ∧ isValueEnd e = true)
+    (hfin : f'.toFile.normal = true ∨ f'.toFile.aug = f'.toFile.events ++ [.newline (detectNewline f'.toFile)]) :
+    ∃ g, load f'.write = some g ∧ g.view = f'.view ∧ g.comments = f'.comments :=
+  reparse_edited f' hs hbom hcr hv hfin
+
+-- non-vacuity: `[a]\n\tk = v` (no final newline), `set a.k = "x y "`: all hypotheses hold, the final newline is added
+example : ∃ f f', load [91, 97, 93, 10, 9, 107, 32, 61, 32, 118] = some f ∧
+    applyAny f (.single (.set [97] none [107] [120, 32, 121, 32])) = .ok f' ∧
+    fileFromBytes (render f'.toFile.events) = some f'.toFile ∧
+    noBomHead (render f'.toFile.events) = true ∧
+    (∃ e, f'.toFile.events.getLast? = some e ∧ isValueEnd e = true) ∧
+    f'.toFile.aug = f'.toFile.events ++ [.newline (detectNewline f'.toFile)] ∧
+    f'.write = [91, 97, 93, 10, 9, 107, 32, 61, 32, 34, 120, 32, 121, 32, 34, 10] := by
+  refine ⟨_, _, rfl, rfl, by decide +kernel, by decide +kernel, ⟨_, rfl, rfl⟩, by decide +kernel, by decide +kernel⟩
 
 /-- The property in full (NOT proved): after any call that succeeds, serializing and re-parsing
 gives the view the call means, i.e. `view (load (write (apply f op))) = view (apply f op)`.
